@@ -777,6 +777,12 @@ func (x *Exec) siteOrdinal(fr *Frame, target string, instr ssa.Instruction) int 
 				}
 				var names []string
 				com := ci.Common()
+				if _, isGo := in.(*ssa.Go); isGo {
+					if target == "go" {
+						sites = append(sites, in)
+					}
+					continue
+				}
 				if callee := com.StaticCallee(); callee != nil {
 					names = calleeNames(callee)
 				} else if com.IsInvoke() {
